@@ -21,6 +21,7 @@ type SolverAnswer struct {
 	Model   map[string]string // symbol -> SMT value text
 	Raw     string
 	PerSolv map[string]string // result per solver (when all were run)
+	File    string
 }
 
 type SolverCfg struct {
@@ -29,6 +30,7 @@ type SolverCfg struct {
 	All     bool     // run all solvers to completion (thorough): disagreement detection
 	Order   []string // solver names
 	WorkDir string
+	NoStagger bool
 }
 
 var solverCmd = map[string][]string{
@@ -63,14 +65,20 @@ func runOne(ctx context.Context, solver string, file string, timeout time.Durati
 	args = append(args, file)
 	cctx, cancel := context.WithTimeout(ctx, timeout+2*time.Second)
 	defer cancel()
-	cmd := exec.CommandContext(cctx, solverCmd[solver][0], args...)
-	var out bytes.Buffer
-	cmd.Stdout = &out
-	cmd.Stderr = &out
-	t0 := time.Now()
-	_ = cmd.Run()
-	dt := time.Since(t0).Seconds()
-	s := out.String()
+	var s string
+	var dt float64
+	if spawner != nil {
+		s, dt, _ = spawner.run(cctx, append([]string{solverCmd[solver][0]}, args...), timeout+2*time.Second)
+	} else {
+		cmd := exec.CommandContext(cctx, solverCmd[solver][0], args...)
+		var out bytes.Buffer
+		cmd.Stdout = &out
+		cmd.Stderr = &out
+		t0 := time.Now()
+		_ = cmd.Run()
+		dt = time.Since(t0).Seconds()
+		s = out.String()
+	}
 	first := strings.TrimSpace(strings.SplitN(strings.TrimSpace(s), "\n", 2)[0])
 	switch first {
 	case "sat", "unsat", "unknown":
@@ -87,6 +95,68 @@ func runOne(ctx context.Context, solver string, file string, timeout time.Durati
 
 // Solve races the solvers. unsat from any solver (and no sat) = unsat. sat dominates.
 func Solve(q *Query, name string, cfg SolverCfg) SolverAnswer {
+	order := cfg.Order
+	if len(order) == 0 {
+		order = []string{"z3-new", "z3", "cvc5"}
+	}
+	if pool != nil && order[0] == "z3-new" {
+		text := q.SMT(true)
+		r, raw, dt := pool.solve(text, cfg.Timeout, cfg.Seed)
+		first := SolverAnswer{Result: r, Solver: "z3-new", TimeS: dt, Raw: raw, PerSolv: map[string]string{"z3-new": r}}
+		if r == "sat" {
+			first.Model = parseModel(raw)
+		}
+		definite := r == "sat" || r == "unsat"
+		if (definite && !cfg.All) || len(order) == 1 {
+			if !definite || r == "sat" {
+				// keep the query text for reports
+				first.File = writeQueryFile(cfg.WorkDir, name, text)
+			}
+			return first
+		}
+		rest := cfg
+		rest.Order = order[1:]
+		rest.NoStagger = true
+		other := solveProcs(q, name, rest)
+		for k, v := range other.PerSolv {
+			first.PerSolv[k] = v
+		}
+		otherDef := other.Result == "sat" || other.Result == "unsat"
+		switch {
+		case definite && otherDef && other.Result != r:
+			first.Result = "disagree"
+			first.Raw += "\n--- other solvers ---\n" + other.Raw
+			first.File = other.File
+			return first
+		case definite:
+			first.File = other.File
+			return first
+		case other.Result == "disagree" || otherDef:
+			other.PerSolv = first.PerSolv
+			other.TimeS += dt
+			return other
+		default:
+			first.File = other.File
+			if first.Raw == "" {
+				first.Raw = other.Raw
+			}
+			return first
+		}
+	}
+	return solveProcs(q, name, cfg)
+}
+
+func writeQueryFile(dir, name, text string) string {
+	fileSeq.Lock()
+	fileSeq.n++
+	n := fileSeq.n
+	fileSeq.Unlock()
+	file := filepath.Join(dir, fmt.Sprintf("q%05d_%s.smt2", n, sanitizeFile(name)))
+	os.WriteFile(file, []byte(text), 0o644)
+	return file
+}
+
+func solveProcs(q *Query, name string, cfg SolverCfg) SolverAnswer {
 	order := cfg.Order
 	if len(order) == 0 {
 		order = []string{"z3-new", "z3", "cvc5"}
@@ -113,7 +183,7 @@ func Solve(q *Query, name string, cfg SolverCfg) SolverAnswer {
 	// easy goals cost one process.
 	for i, s := range order {
 		go func(i int, s string) {
-			if i > 0 && !cfg.All {
+			if i > 0 && !cfg.All && !cfg.NoStagger {
 				select {
 				case <-time.After(time.Duration(i) * 1500 * time.Millisecond):
 				case <-ctx.Done():
@@ -156,9 +226,7 @@ func Solve(q *Query, name string, cfg SolverCfg) SolverAnswer {
 	if ans.Result == "sat" {
 		ans.Model = parseModel(ans.Raw)
 	}
-	if ans.Result == "unsat" {
-		os.Remove(file)
-	}
+	ans.File = file
 	return ans
 }
 
